@@ -25,10 +25,11 @@ enum Res {
 }
 
 /// apply `f` to the table-like at `path` (path may go through array-of-tables / array elements)
-fn with_table_like(item: &mut Item, path: &[J], f: &mut dyn FnMut(&mut dyn toml_edit::TableLike) -> Res) -> Res {
+fn with_table_like(item: &mut Item, path: &[J], f: &mut dyn FnMut(&mut dyn toml_edit::TableLike, bool) -> Res) -> Res {
     if path.is_empty() {
+        let is_std = item.is_table();
         return match item.as_table_like_mut() {
-            Some(t) => f(t),
+            Some(t) => f(t, is_std),
             None => Res::Skip,
         };
     }
@@ -76,7 +77,7 @@ fn apply(doc: &mut DocumentMut, o: &J) -> Res {
     let key = from_cps(&o["key"]);
     let i = o["i"].as_u64().unwrap_or(0) as usize;
     let v = o["v"].clone();
-    with_table_like(doc.as_item_mut(), &path, &mut |t| match op.as_str() {
+    with_table_like(doc.as_item_mut(), &path, &mut |t, is_std| match op.as_str() {
         "insert" => {
             t.insert(&key, toml_edit::value(leaf_int(&v)));
             Res::Ok
@@ -87,6 +88,41 @@ fn apply(doc: &mut DocumentMut, o: &J) -> Res {
         }
         "sort_values" => {
             t.sort_values();
+            Res::Ok
+        }
+        "fmt" => {
+            t.fmt();
+            Res::Ok
+        }
+        "clear" => {
+            t.clear();
+            Res::Ok
+        }
+        "array_fmt" => {
+            let Some(a) = t.get_mut(&key).and_then(|x| x.as_array_mut()) else { return Res::Skip };
+            a.fmt();
+            Res::Ok
+        }
+        "to_inline" => {
+            // a standard (or dotted-key) table becomes an inline table
+            let Some(it) = t.get_mut(&key) else { return Res::Skip };
+            if !it.is_table() {
+                return Res::Skip;
+            }
+            it.make_value();
+            Res::Ok
+        }
+        "to_table" => {
+            // an inline table becomes a standard table (only possible directly inside a standard table)
+            let Some(it) = t.get_mut(&key) else { return Res::Skip };
+            if !is_std || !it.is_inline_table() {
+                return Res::Skip;
+            }
+            let taken = std::mem::take(it);
+            *it = match taken.into_table() {
+                Ok(tb) => Item::Table(tb),
+                Err(other) => other,
+            };
             Res::Ok
         }
         "array_push" | "array_insert" | "array_replace" | "array_remove" => {
